@@ -312,6 +312,11 @@ def check_C19(rep, known):
 
 def check_C03(rep, known):
     mc_job(rep, 'MC_Order', 'MC_Order.cfg', workers=8)
+    # several integral terms whose integrands print alike (two controls): one quadrature per term -- C05 family, model RF
+    recs, st = tlc.generate('ScenShoot', 'ScenShoot.cfg', 'C05', rep.tier, rep.seed, parts=16)
+    recs = [r for r in recs if r['sc']['rhs'] == 'RF']
+    outs = engine.pool_map('replay_nlp', 'replay', recs)
+    engine.process_results(rep, recs, outs, [r'C05\.f'], known)
     # SplineMethod's own quadrature (Milne rule per control interval) on uniform and geometric grids: ScenSplineM family
     recs, st = tlc.generate('ScenSplineM', 'ScenSplineM.cfg', 'C17c', rep.tier, rep.seed, parts=1)
     rep.add_tlc(st)
